@@ -158,7 +158,7 @@ B("C09", "fixed-point-without-ambig", "chalk-recursive/src/recursive.rs",
   """                Ok(s) => s.is_ambig(),
                 Err(_) => false,""",
   """                Ok(_) => false,
-                Err(_) => false,""", "C09.FIXPOINT:reached_fixed_point")
+                Err(_) => false,""", "C09.FIXED-POINT-TABLE:reached_fixed_point")
 B("C09", "floundered-loops-again", "chalk-engine/src/solve.rs",
   "                    return f(SubstitutionResult::Floundered, false);",
   "                    SubstitutionResult::Floundered", "C09.LOOP-EXIT")
